@@ -394,8 +394,8 @@ T dilate_add(T a, T b) {
     if (a == std::numeric_limits<T>::min()) return a;
     if (b == std::numeric_limits<T>::min()) return b;
     const T r = a + b;
-    // if overflow, saturate
-    if (r < std::max<T>(a,b)) return std::numeric_limits<T>::max();
+    // if overflow, saturate (b is a non-negative height, so the sum wrapped iff it fell below a)
+    if (b >= 0 && r < a) return std::numeric_limits<T>::max();
     return r;
 }
 
